@@ -1,2 +1,2 @@
 SPECIFICATION Spec
-INVARIANTS HeaderRefinesL1 HeaderAsDocumented ExplicitIndependent EveryModeReachable EmitTable
+INVARIANTS HeaderRefinesL1 HeaderAsDocumented ExplicitIndependent EveryModeReachable EmitTable NxHeaderRefinesVerdict NxExplicitIndependent EmitNx
